@@ -397,7 +397,7 @@ func g12ErrorStatusLiterals(repo string) ([]int64, error) {
 		}
 		if d.IsDir() {
 			n := d.Name()
-			if n == ".git" || n == "vendor" || n == "node_modules" || n == "e2e" {
+			if n == ".git" || n == "vendor" || n == "node_modules" || n == "e2e" || n == "verifhook" {
 				return filepath.SkipDir
 			}
 			return nil
@@ -408,6 +408,9 @@ func g12ErrorStatusLiterals(repo string) ([]int64, error) {
 		b, err := os.ReadFile(p)
 		if err != nil || !strings.Contains(string(b), "ErrorStatus{") {
 			return nil
+		}
+		if strings.Contains(string(b), "//go:build verif") {
+			return nil // verification hooks are not part of the product
 		}
 		fset := token.NewFileSet()
 		f, err := parser.ParseFile(fset, p, b, 0)
